@@ -34,6 +34,27 @@ DIGEST_FIELDS = ['hash', 'lines', 'resumes', 'atomics', 'syncs', 'injected', 'ra
                  'nevents', 'result']
 
 
+def open_findings():
+    """open entries of known_findings.json for this property: [{id, match, what}]"""
+    out = []
+    for e in C.load_findings().get('open', []):
+        if isinstance(e, dict) and e.get('property') == 'C17' and e.get('match'):
+            out.append(e)
+    return out
+
+
+def report(res, key, replay_text, message, name, seen):
+    """a failing input: KNOWN-FINDING if its key matches an open finding of C17, VIOLATION otherwise"""
+    for e in open_findings():
+        if re.search(e['match'], key):
+            if e.get('id') not in seen:
+                seen.add(e.get('id'))
+                res.known_finding(e['what'] + ' [this run: ' + message[:600] + ']')
+            return True
+    res.violation(replay_text, message, name=name)
+    return False
+
+
 def workdir():
     d = os.path.join(C.WORK, 'c17')
     os.makedirs(d, exist_ok=True)
@@ -188,6 +209,10 @@ def run_all(binary, lines, variant):
     return out, crashes
 
 
+def key_safe(line):
+    return re.sub(r'[^A-Za-z0-9]+', '_', line.split()[1])[:30]
+
+
 def digest_tuple(d):
     return tuple(d.get(f) for f in DIGEST_FIELDS)
 
@@ -281,48 +306,39 @@ def gen_restore(rng, tier):
 
 
 def compare_sched(impl, model):
-    """scheduler script: implementation observations vs model observations.  `ub` in the model = the C++ code has
-    undefined behaviour there: either the implementation crashed at that point (`crash`), or it went on (the end()
-    dereference of D8 is benign in release builds) and the model's defined continuation must still match.
-    returns (ok, kind) with kind in ok | ub-benign | ub-crash | mismatch:<detail>"""
+    """scheduler script: implementation observations vs model observations, verbatim.  Since /repo 33a96a1 there is no
+    tolerated divergence: a crash of the scheduler or an `ub` of the model is a failure.
+    returns (kind, detail) with kind in ok | crash | mismatch"""
     try:
         io, iu = impl.split(' = ')[1].rsplit(' used=', 1)
         mo, mu = model.split(' = ')[1].rsplit(' used=', 1)
     except (IndexError, ValueError):
-        return False, 'mismatch:unparsable `%s` / `%s`' % (impl[-120:], model[-120:])
+        return 'mismatch', 'unparsable `%s` / `%s`' % (impl[-120:], model[-120:])
+    script = impl.split('script=')[1].split(' = ')[0]
     I, M = io.split(','), mo.split(',')
-    i = j = 0
-    benign = 0
-    while j < len(M):
-        if M[j] == 'ub':
-            if i < len(I) and I[i] == 'crash':
-                return True, 'ub-crash'
-            benign += 1
-            j += 1
-            continue
-        if i >= len(I) or I[i] != M[j]:
-            return False, 'mismatch:observation %d is `%s` in the implementation and `%s` in the model (script %s)' % (
-                i, I[i] if i < len(I) else 'END', M[j], impl.split('script=')[1].split(' = ')[0][:200])
-        i += 1
-        j += 1
-    if i != len(I):
-        return False, 'mismatch:the implementation observed more (%s …) than the model (script %s)' % (
-            ','.join(I[i:i + 4]), impl.split('script=')[1].split(' = ')[0][:200])
-    if iu != '?' and iu != mu:
-        return False, 'mismatch:draws used %s vs %s' % (iu, mu)
-    return True, 'ub-benign' if benign else 'ok'
+    if 'crash' in I:
+        return 'crash', 'the scheduler crashed after observation %d (%s); the model expects %s next' % (
+            len(I) - 1, ','.join(I[-5:-1]), ','.join(M[len(I) - 1:len(I) + 2]) or 'nothing')
+    for i, (x, y) in enumerate(zip(I, M)):
+        if x != y:
+            return 'mismatch', 'observation %d is `%s` in the implementation and `%s` in the model (script %s)' % (i, x, y, script[:200])
+    if len(I) != len(M):
+        return 'mismatch', 'the implementation made %d observations, the model %d (script %s)' % (len(I), len(M), script[:200])
+    if iu != mu:
+        return 'mismatch', 'draws used %s vs %s (script %s)' % (iu, mu, script[:200])
+    return 'ok', ''
 
 
-def model_differential(binary, tier):
-    """(d): decision functions + scheduler scripts, implementation vs Lean model on the recorded raw draws"""
+def model_differential(res, binary, tier):
+    """(d): decision functions + scheduler scripts, implementation vs Lean model on the recorded raw draws; F3 lines"""
     drv = os.path.join(C.LEAN, '.lake/build/bin/ymdriver_fibersched')
     r = subprocess.run([binary, 'pure', '--seed', str(C.seed())], capture_output=True, text=True, timeout=600)
     impl = [l for l in r.stdout.split('\n') if l]
-    stats = {'GE': 0, 'POLL': 0, 'NI': 0, 'FW': 0, 'FWD': 0, 'SCHED': 0, 'SCHED_requests': 0, 'SCHED_ub_benign_D8': 0,
-             'SCHED_ub_crash_D12': 0}
+    stats = {'GE': 0, 'POLL': 0, 'NI': 0, 'FW': 0, 'FWD': 0, 'F3': 0, 'SCHED': 0, 'SCHED_requests': 0, 'SCHED_crashes': 0}
     problems = []
+    f3 = {'experiments': 0, 'with_draws_before_SetSeed': 0, 'failures': 0, 'example': None}
     if not impl or impl[-1] != 'done':
-        return stats, ['harness `pure` mode did not finish (exit %d): %s' % (r.returncode, r.stderr[-300:])], 0
+        return stats, ['harness `pure` mode did not finish (exit %d): %s' % (r.returncode, r.stderr[-300:])], 0, f3
     r2 = subprocess.run([binary, 'sched', '--seed', str(C.seed()), '--count', '400' if tier == 'quick' else '6000'],
                         capture_output=True, text=True, timeout=1800)
     simpl = [l for l in r2.stdout.split('\n') if l]
@@ -338,34 +354,63 @@ def model_differential(binary, tier):
             d = dict(kv.split('=') for kv in l.split()[1:])
             if not (d['same'] == '1' and d['mirror'] == '1' and d['count'] == d['k'] == d['forwarded']):
                 problems.append('ForwardToFaultRandomCount does not reproduce the engine state: ' + l)
+        if k == 'F3':
+            d = dict(kv.split('=') for kv in l.split()[1:])
+            f3['experiments'] += 1
+            f3['with_draws_before_SetSeed'] += int(d['drawn_before_SetSeed']) > 0
+            if d['restored_with_recorded_count'] != d['original'] or d['count_after_restore'] != d['recorded_count']:
+                f3['failures'] += 1
+                f3['example'] = f3['example'] or l
     if not os.path.exists(drv):
-        return stats, problems + ['ymdriver_fibersched is not built: the extracted functions were not validated against the implementation'], 0
+        return stats, problems + ['ymdriver_fibersched is not built: the extracted functions were not validated against the implementation'], 0, f3
     m = subprocess.run([drv], input='\n'.join(impl) + '\n', capture_output=True, text=True, timeout=1800)
     model = [l for l in m.stdout.split('\n') if l]
     if len(model) != len(impl):
         problems.append('model driver answered %d lines for %d inputs (%s)' % (len(model), len(impl), m.stderr[-200:]))
     validated = 0
     samples = []
+    crashes = 0
     for a, b in zip(impl, model):
         if a.startswith('SCHED '):
-            good, kind = compare_sched(a, b)
-            if good:
+            kind, detail = compare_sched(a, b)
+            if kind == 'ok':
                 validated += 1
                 stats['SCHED_requests'] += a.split('script=')[1].split(' = ')[0].count(';') + 1
-                if kind == 'ub-benign':
-                    stats['SCHED_ub_benign_D8'] += 1
-                elif kind == 'ub-crash':
-                    stats['SCHED_ub_crash_D12'] += 1
-                if len(samples) < 2 and kind == 'ok':
+                if len(samples) < 2:
                     samples.append(re.sub(r'raws=\S+', 'raws=…', a)[:400])
+            elif kind == 'crash':
+                crashes += 1
+                stats['SCHED_crashes'] += 1
+                if crashes <= 2:
+                    res.violation(re.sub(r'raws=\S+', 'raws=…', a) + '\n# harness: c17 sched --seed %d (script number %d of the stream)\n# %s' % (
+                        C.seed(), stats['SCHED_crashes'], detail),
+                        'the fiber scheduler crashed on a scheduler script (%s): %s' % (a.split(' raws=')[0], detail),
+                        name='C17_%s_sched_crash_%d.txt' % (tier, crashes))
             elif len(problems) < 5:
-                problems.append('scheduler model vs implementation: ' + kind[9:] + ' [' + a.split(' raws=')[0] + ']')
+                problems.append('scheduler model vs implementation: ' + detail + ' [' + a.split(' raws=')[0] + ']')
+        elif a.startswith('F3 '):
+            continue
         elif a == b:
             validated += 1
         elif len(problems) < 5:
             problems.append('implementation `%s` vs model `%s`' % (a[:300], b[:300]))
     stats['samples'] = samples
-    return stats, problems, validated
+    return stats, problems, validated, f3
+
+
+F3_PROGRAM = '''# minimal program (public API only, no fibers needed: outside a fiber InjectFault decides and its yield is a no-op):
+#   auto decisions = [](int n) { std::string s; for (int i = 0; i < n; ++i) { auto b = yaclib::GetInjectedCount(); yaclib::InjectFault();
+#                                s += yaclib::GetInjectedCount() != b ? '1' : '0'; } return s; };
+#   yaclib::SetFaultFrequency(3);
+#   decisions(20);                                              // the process has drawn numbers (an earlier test, say)
+#   yaclib::SetSeed(42); yaclib::fiber::SetInjectorState(0);
+#   decisions(30);                                              // the run of interest, up to the checkpoint
+#   auto count = yaclib::fiber::GetFaultRandomCount(); auto state = yaclib::fiber::GetInjectorState();   // recorded pair
+#   auto original = decisions(64);
+#   // --- "another process": from a fresh start the three documented calls
+#   yaclib::SetSeed(42); yaclib::fiber::ForwardToFaultRandomCount(count); yaclib::fiber::SetInjectorState(state);
+#   assert(decisions(64) == original);                          // failed before /repo f49f13c: `count` included the draws made before SetSeed(42)
+'''
 
 
 def run(res, tier):
@@ -376,9 +421,10 @@ def run(res, tier):
         'integers are natural numbers in the model: no wrap-around of the virtual time (2^64 ns), the draw counter or the 32-bit injector counter (the latter is proved bounded)',
         'client programs use time through durations only (sleep_for / wait_for / WaitFor; an absolute deadline is now() + d) and do not print fiber ids or addresses: a restored run starts at virtual time 0 with other fiber ids',
         'the restore experiment restores inside the root fiber of the new process (starting a fiber consumes a draw) at a checkpoint where all other fibers were joined: the scheduler state is not part of the recorded pair',
-        'fault configuration values are positive (0 for the yield frequency, the pick width or the sleep time divides by zero: recorded as a finding in notes/C17.md); atomic fail frequency 1 makes every weak CAS fail forever and is excluded',
+        'fault configuration values are positive (0 for the yield frequency, the pick width or the sleep time divides by zero: F2 in notes/C17.md); atomic fail frequency 1 makes every weak CAS fail forever and is excluded',
         'hardware_concurrency is pinned by SetHardwareConcurrency (its default reads the machine)',
     ]
+    seen_findings = set()
     problems = extract(res)
     ok, broken = C.proof_stage(res, 'C17', drivers=['ymdriver_fibersched'])
     broken = problems + broken
@@ -541,20 +587,58 @@ def run(res, tier):
             cas_first += 1
         if len(qt) == 1:
             aba += 1
-            if aba == 1:
-                res.known_finding('without the harness\'s address quarantine %d of %d configurations do not reproduce (in-process re-run or '
-                                  'other heap layout) and do reproduce with it: a stale compare_exchange on a pointer-valued word succeeds '
-                                  'iff the allocator handed the address out again (ABA by address reuse, e.g. yaclib::Strand::Submit); the '
-                                  'fault layer decides identically. Example: `%s` after %d earlier configurations in the process, %s'
-                                  % (len(raw_diff), len(raw_lines), l, len(hist) - 1, why[:400]))
+            key = 'F1 allocator address reuse: differs without the address quarantine, reproduces with it; first difference: %s' % (
+                'outcome of a compare_exchange after identical operation histories' if is_cas_outcome_only(x, y) else 'other')
+            report(res, key,
+                   '%s\n# history: the %d configurations before it (gen_configs(PRNG(VERIF_SEED*7+5), thorough), quarantine=0)\n# %s' % (l, len(hist) - 1, why),
+                   '%d of %d configurations do not reproduce without the address quarantine; e.g. `%s` after %d earlier configurations '
+                   'in the process: %s' % (len(raw_diff), len(raw_lines), l, len(hist) - 1, why[:400]),
+                   'C17_%s_F1_%s.txt' % (tier, key_safe(l)), seen_findings)
         else:
             res.violation('%s\n# history: the %d configurations before it (gen_configs(PRNG(VERIF_SEED*7+5), thorough)), with and without '
                           'address quarantine\n# %s' % (l, len(hist) - 1, why),
                           'two runs differ even when no address is reused within a run: ' + why,
                           name='C17_%s_raw_%s.txt' % (tier, key))
 
+    # ---- former F3 (fixed in /repo f49f13c), armed: checkpoint in a process that drew numbers BEFORE SetSeed, the pair exactly
+    #      as GetFaultRandomCount()/GetInjectorState() report it, restored in a fresh process
+    f3 = {'cross_process_pairs': 0, 'cross_process_failures': 0}
+    f3_lines = gen_restore(random.Random(C.seed() * 31 + 3), 'quick')[:8 if tier == 'quick' else 40]
+    f3_lines = [l.replace('rec r', 'rec w', 1) + ' warm=1' for l in f3_lines]
+    wrec, _ = run_all(binary, f3_lines, VARIANTS[0])
+    wrep = []
+    for l in f3_lines:
+        r = wrec.get(l.split()[1])
+        if r and r['ckpt'] and len(r['digests']) == 1:
+            wrep.append(l.replace('rec ', 'rep ', 1).replace(' warm=1', '') + ' count=%d state=%d' % r['ckpt'])
+    wout, _ = run_all(binary, wrep, VARIANTS[1])
+    for l in wrep:
+        k = l.split()[1]
+        b = wout.get(k, {'digests': []})['digests']
+        if len(b) == 1:
+            f3['cross_process_pairs'] += 1
+            if digest_tuple(b[0]) != digest_tuple(wrec[k]['digests'][0]):
+                f3['cross_process_failures'] += 1
+                if f3['cross_process_failures'] <= 2:
+                    rec_line = next(x for x in f3_lines if x.split()[1] == k)
+                    res.violation('%s\n%s\n# the recording process ran a program that draws numbers before SetSeed (warm=1); the pair is what '
+                                  'GetFaultRandomCount()/GetInjectorState() reported at the checkpoint\n%s' % (rec_line, l, F3_PROGRAM),
+                                  'a (GetFaultRandomCount, GetInjectorState) pair recorded in a process that drew numbers before SetSeed does '
+                                  'not restore in a fresh process', name='C17_%s_restore_after_predraws_%d.txt' % (tier, f3['cross_process_failures']))
+    if len(wrep) != len(f3_lines) or f3['cross_process_pairs'] != len(wrep):
+        broken.append('restore-after-predraws experiment incomplete: %d recorded, %d replayed of %d' % (len(wrep), f3['cross_process_pairs'], len(f3_lines)))
+
     # ---- (d) the extracted functions / the model against the implementation
-    mstats, mproblems, validated = model_differential(binary, tier)
+    mstats, mproblems, validated, f3pure = model_differential(res, binary, tier)
+    f3.update({'pure_' + k: v for k, v in f3pure.items() if k != 'example'})
+    if f3pure['failures']:
+        res.violation('# harness: c17 pure --seed %d\n%s\n%s' % (C.seed(), f3pure['example'], F3_PROGRAM),
+                      'restoring with the recorded (GetFaultRandomCount, GetInjectorState) pair does not continue like the original '
+                      '(%d/%d experiments outside fibers, %d of them with draws before SetSeed)' % (
+                          f3pure['failures'], f3pure['experiments'], f3pure['with_draws_before_SetSeed']),
+                      name='C17_%s_restore_pure.txt' % tier)
+    if f3pure['experiments'] == 0 or f3pure['with_draws_before_SetSeed'] == 0:
+        broken.append('the restore-after-predraws monitor (harness lines `F3`) did not run')
     if not res.violations:
         if mproblems:
             res.violation('\n'.join(mproblems), 'correspondence broken: the Lean model (extracted decision functions) and the '
@@ -583,7 +667,8 @@ def run(res, tier):
                              restore_pairs=restored, restore_negative_controls='%d/%d differ when the count is off by one' % (neg_diff, len(neg)),
                              reset_between_inprocess_runs=reset_needed, model_differential=mstats,
                              without_address_quarantine=dict(configurations=len(raw_lines), runs=raw_runs, differing=len(raw_diff),
-                                                             reproduce_with_quarantine=aba, first_difference_is_a_cas_outcome=cas_first),
+                                                             examined=min(4, len(raw_diff)), reproduce_with_quarantine=aba, first_difference_is_a_cas_outcome=cas_first),
+                             restore_after_draws_before_SetSeed=f3,
                              lint_selftest_kinds=kinds),
         'compared': DIGEST_FIELDS,
         'broken_obligations': broken,
@@ -591,9 +676,8 @@ def run(res, tier):
                     '(lint_clean, with a self-test on a probe) and by the perturbed re-runs',
         'wall_runs_s': round(time.time() - t0, 1),
     })
-    res.notes.append('defects outside the property (crashes, not irreproducibility) are listed in notes/C17.md: division by zero '
-                     'for configuration value 0, RunLoop/GetNext on an empty run queue (D12), SleepPreemptive end() dereference (D8), '
-                     'GetFaultRandomCount cannot be reset / ForwardToFaultRandomCount is relative')
+    res.notes.append('documentation-only findings are listed in notes/C17.md: division by zero for configuration value 0 (F2); '
+                     'D8 / D12 (scheduler crashes) were fixed in /repo 33a96a1 and are no longer tolerated anywhere in this check')
 
 
 def replay(path):
@@ -623,7 +707,7 @@ def replay(path):
         a, _ = run_batch(binary, [rec_line], VARIANTS[0])
         key = rec_line.split()[1]
         count, state = a[key]['ckpt']
-        rep_line = rec_line.replace('rec ', 'rep ', 1) + ' count=%d state=%d' % (count, state)
+        rep_line = rec_line.replace('rec ', 'rep ', 1).replace(' warm=1', '') + ' count=%d state=%d' % (count, state)
         b, _ = run_batch(binary, [rep_line], VARIANTS[1])
         da, db = a[key]['digests'][0], b[key]['digests'][0]
         print('recorded  ' + ' '.join('%s=%s' % (f, da[f]) for f in DIGEST_FIELDS))
